@@ -512,6 +512,9 @@ func unpack_iterable(vm *Vm, v py.Object, argcnt int, argcntafter int, sp int) e
 		w, err := py.Next(it)
 		if err != nil {
 			/* Iterator done, via error or exhaustion. */
+			if !py.IsException(py.StopIteration, err) {
+				return err
+			}
 			return py.ExceptionNewf(py.ValueError, "need more than %d value(s) to unpack", i)
 		}
 		sp--
@@ -522,6 +525,9 @@ func unpack_iterable(vm *Vm, v py.Object, argcnt int, argcntafter int, sp int) e
 		/* We better have exhausted the iterator now. */
 		_, finished := py.Next(it)
 		if finished != nil {
+			if !py.IsException(py.StopIteration, finished) {
+				return finished
+			}
 			return nil
 		}
 		return py.ExceptionNewf(py.ValueError, "too many values to unpack (expected %d)", argcnt)
